@@ -5,11 +5,11 @@
 (* values, fired rewrites.  One state per observation; TLC evaluates the   *)
 (* verdict operator of the L1 module the observation belongs to.           *)
 (***************************************************************************)
-EXTENDS TaskGraph, Collection, Optimizer, MapBlocksInfo, SourceIO, Naming, RandomRealization, Json, IOUtils, TLCExt
+EXTENDS TaskGraph, Collection, Optimizer, MapBlocksInfo, SourceIO, Naming, RandomRealization, XarrayOptIn, Json, IOUtils, TLCExt
 Cases == ndJsonDeserialize(IOEnv.CASES)
 VARIABLE i
-Init == i = 0 /\ g = Chain3 /\ st = S0 /\ om = M0("n") /\ mbsnap = <<>> /\ mbseen = {} /\ iophase = "constructing" /\ ioreads = {} /\ content = <<>> /\ cache = <<>> /\ ncfg = "x" /\ rng = 0 /\ seeds = <<>> /\ seen = <<>>
-Next == i < Len(Cases) /\ i' = i + 1 /\ UNCHANGED <<g, st, om, mbsnap, mbseen, iophase, ioreads, content, cache, ncfg, rng, seeds, seen>>
+Init == i = 0 /\ g = Chain3 /\ st = S0 /\ om = M0("n") /\ mbsnap = <<>> /\ mbseen = {} /\ iophase = "constructing" /\ ioreads = {} /\ content = <<>> /\ cache = <<>> /\ ncfg = "x" /\ rng = 0 /\ seeds = <<>> /\ seen = <<>> /\ xloaded = {} /\ xmanager = "none" /\ xregistered = FALSE
+Next == i < Len(Cases) /\ i' = i + 1 /\ UNCHANGED <<g, st, om, mbsnap, mbseen, iophase, ioreads, content, cache, ncfg, rng, seeds, seen, xloaded, xmanager, xregistered>>
 
 Verdict(c) ==
   CASE c.fn = "graph"   -> GraphVerdict(c)
@@ -28,6 +28,7 @@ Verdict(c) ==
     [] c.fn = "history" -> HistoryVerdict(c)
     [] c.fn = "identity" -> IdentityVerdict(c)
     [] c.fn = "realization" -> RealizationVerdict(c)
+    [] c.fn = "optin" -> OptInVerdict(c)
     [] c.fn = "store" -> StoreVerdict(c)
     [] c.fn = "block_info" -> (IF BlockInfoVerdict(c) # "ok" THEN BlockInfoVerdict(c)
                                ELSE IF c.got.kind = "raised" THEN "ok-computation-raised"
